@@ -119,7 +119,10 @@ type connKit struct {
 //
 // NOTE: This is part of the net.Conn interface.
 func (k *connKit) Read(b []byte) (int, error) {
-	if k.recvBuffer.Len() == 0 {
+	// A control message with an empty payload carries no stream data: move
+	// on to the next message rather than letting the empty buffer report
+	// io.EOF on a stream that is still open.
+	for k.recvBuffer.Len() == 0 {
 		data := NewMsgData(ProtocolVersion, nil)
 		if err := k.impl.ReceiveControlMsg(data); err != nil {
 			return 0, err
